@@ -249,3 +249,15 @@ PROPS["C21"] = dict(
     level_text="Sampled call sequences with exact operator/operand oracles; termination clause by bounded CPU budget per input.",
     level_note="Trusted base: pyref content tokenizer; hook H5.",
 )
+
+PROPS["C01"] = dict(
+    title="Reading any byte sequence never crashes, hangs or exhausts memory",
+    level="exploration",
+    technique="supervised execution under in-process monitors: every input is opened under all six strictness presets and walked by a fixed navigation script (catalog, info, metadata, every object incl. stream decode and bounded decode, page count, pages, resources, annotations, content parsing, text extraction) inside a worker process with a panic hook, a counting allocator with a per-case ceiling, thread-CPU accounting and a byte-counting reader; the supervisor attributes signals (SIGSEGV = stack overflow, SIGABRT = allocation ceiling) and CPU-budget overruns (measured from /proc, load independent) to the case in flight; wall-clock expiry alone is inconclusive",
+    stages=[rust()],
+    rule="inputs <= 256 KiB: (a) systematic numeric-slot mutation: every occurrence of /Size /Prev /W /Index /N /First /Length /Predictor /Colors /Columns /BitsPerComponent /Rotate /Count /Rows /K /EarlyChange /Width /Height /XRefStm /Extends, xref subsection headers and entry offsets in 8 template files (library-written under 6 configurations + hand-written xref-stream/object-stream/predictor/incremental skeletons) x a pool of 22 boundary integers, (b) pairs of slots, (c) random bytes, (d) byte/structure mutations (flip, overwrite, delete, insert, truncate, splice, keyword insertion, deep nesting) of templates and of the 40+ repository PDFs. Non-trivial: some preset got past the header; distinct by input bytes. Budgets: 20 s thread CPU, reads <= 4096 x len + 64 MiB, live heap <= 768 MiB + 80 x len",
+    assumptions=["Err results are always fine; only process-level events (panic, abort, SIGSEGV, budget overruns) count", "budgets restate 'unboundedly long / without bound' as bounded statements for inputs of at most 256 KiB"],
+    floors={"quick": {"evaluations": 8000, "distinct": 5000, "counters": {"slot_x_pool_cases": 2000, "cases_supervised": 8000}}, "thorough": {"evaluations": 500000, "distinct": 300000}},
+    level_text="Sampled hostile inputs with systematic enumeration of (numeric slot x boundary value) on the templates; every case is judged by monitors observing the real execution.",
+    level_note="Trusted base: the monitors in harness/src/mon.rs and the supervisor in wl/c01.rs. No claim for inputs larger than 256 KiB or for paths the navigation script does not call.",
+)
